@@ -316,6 +316,61 @@ class Check:
             self.obligations.append((module, t, ax, True))
         return ok_all
 
+    def lean_many(self, pairs, gen_dependent=True):
+        """`lean()` for several (module, theorems) pairs with ONE lake invocation and ONE audit run (the lake lock is
+        contended when checks run in parallel).  Falls back to the per-module path when the combined build fails, so
+        that the failing module is attributed."""
+        pairs = [(m, t) for m, t in pairs if t]
+        if not pairs:
+            return True
+        for module, _ in pairs:
+            for m, path in module_files(module).items():
+                for n, line in enumerate(_strip_comments(open(path).read()).split("\n"), 1):
+                    if FORBIDDEN.search(line):
+                        raise Infra("forbidden construct in %s:%d: %s" % (path, n, line.strip()))
+        mods = [m for m, _ in pairs]
+        rc, out = lake(["build"] + mods)
+        if rc != 0:
+            ok = True
+            for module, theorems in pairs:
+                ok = self.lean(module, theorems, gen_dependent=gen_dependent) and ok
+            return ok
+        self.checker_cmds.append("cd lean && lake build %s" % " ".join(mods))
+        audit_dir = os.path.join(LEAN, ".lake", "audit")
+        os.makedirs(audit_dir, exist_ok=True)
+        apath = os.path.join(audit_dir, "%s_structural.lean" % self.pid)
+        with open(apath, "w") as f:
+            for m in mods:
+                f.write("import %s\n" % m)
+            for _, theorems in pairs:
+                for t in theorems:
+                    f.write("#print axioms %s\n" % t)
+        self.checker_cmds.append("cd lean && lake env lean %s   # '#print axioms' for each obligation" % os.path.relpath(apath, LEAN))
+        p = subprocess.run(["lake", "env", "lean", apath], cwd=LEAN, stdout=subprocess.PIPE,
+                           stderr=subprocess.STDOUT, text=True, timeout=1800)
+        text = p.stdout.replace("\n ", " ").replace("\n  ", " ")
+        ok_all = True
+        for module, theorems in pairs:
+            for t in theorems:
+                m = re.search(r"'%s' depends on axioms: \[([^\]]*)\]" % re.escape(t), text)
+                m0 = re.search(r"'%s' does not depend on any axioms" % re.escape(t), text)
+                if m:
+                    ax = [a.strip() for a in m.group(1).replace("\n", " ").split(",") if a.strip()]
+                elif m0:
+                    ax = []
+                else:
+                    if gen_dependent:
+                        self.lean_errors.append((module, ["obligation %s not found: %s" % (t, text[-600:])]))
+                        self.obligations.append((module, t, None, False))
+                        ok_all = False
+                        continue
+                    raise Infra("obligation %s missing from %s: %s" % (t, module, text[-1500:]))
+                bad = [a for a in ax if a not in ALLOWED_AXIOMS]
+                if bad:
+                    raise Infra("theorem %s depends on non-standard axioms %s" % (t, bad))
+                self.obligations.append((module, t, ax, True))
+        return ok_all
+
     TABLES = {   # bridge module -> theorems (lean/NfcVerif/Props/Tables*.lean)
         "TablesDep": ["lr_table_bridge", "psl_brs_bridge"],
         "TablesIso": ["fsc_table_bridge"],
@@ -346,8 +401,7 @@ class Check:
         if mods:
             self.trusted.append("harness/translate_fn.py + lean/NfcVerif/PyFn.lean (Python subset -> Lean, "
                                 "docs/fn_translator.md; validated by harness/translate_fn_selftest.py)")
-        for m in mods:
-            ok = self.lean(m.BRIDGE["module"], m.BRIDGE["theorems"], gen_dependent=True) and ok
+        ok = self.lean_many([(m.BRIDGE["module"], m.BRIDGE["theorems"]) for m in mods]) and ok
         if rel.get("excflow"):
             import excflow
             if excflow.BY_PROPERTY.get(self.pid):
